@@ -160,7 +160,12 @@ def case_strict_dialects(idx, rng, tier, res):
             flags = dict((o, False) for o in c17_.OPTIONS)
             if dialect.startswith('smiV1'):
                 flags.update(supportSmiV1Keywords=True, supportIndex=True)
-            c02_ast._PARSERS[dialect] = parserFactory(**flags)()
+            try:
+                c02_ast._PARSERS[dialect] = parserFactory(**flags)()
+            except Exception as exc:
+                res.violation('explicit_false_dialect_unbuildable', 'parserFactory(%r) raised %r' % (flags, exc),
+                              replay={'flags': flags}, dialect=dialect)
+                continue
         oc = attempt(dialect, text)
         if not generic_judgement(res, 'strict_' + kind, dialect, text, oc):
             continue
